@@ -314,7 +314,18 @@ class FD:
         if isinstance(base, Obj):
             if e.attr in base.attrs:
                 return base.attrs[e.attr]
+            if ('method:' + e.attr) in base.attrs:
+                bound = base.attrs['method:' + e.attr]      # a bound method used as a value
+                if not getattr(bound, '_fd_callable', False):
+                    bound = (lambda f: (lambda *a, **k: f(*a, **k)))(bound)
+                    bound._fd_callable = True
+                return bound
             if '__classdef__' in base.attrs and not (e.attr.startswith('__') and e.attr.endswith('__')):
+                bm = self.class_method(base, e.attr)
+                if bm is not None:
+                    bm = (lambda f: (lambda *a, **k: f(*a, **k)))(bm)
+                    bm._fd_callable = True
+                    return bm
                 cv = self.class_constant(base, e.attr)
                 if cv is not _MISSING:
                     return cv
@@ -331,6 +342,8 @@ class FD:
                 base.attrs[e.attr] = v
                 return v
             raise Inconclusive('fdeval: %r has no modelled attribute %s' % (base, e.attr))
+        if isinstance(base, type) and e.attr in ('__name__', '__qualname__'):
+            return base.__name__
         if self.attr_hook is not None:
             return self.attr_hook(base, e.attr)
         if base is UNKNOWN:
